@@ -5,8 +5,6 @@ V = os.path.dirname(os.path.dirname(os.path.abspath(__file__)))
 
 NA = {
     'C01': "byte-exact round trip over all lengths x ten configuration dimensions is a runtime-value fact (cipher/compressor/buffer arithmetic); no structural necessary condition beyond what C17/C03/C09 already decide; static analysis cannot bound it (DESIGN §5 C01)",
-    'C06': "agreement of sign-side and verify-side canonicalisers on every payload is equivalence of byte-transducer loops; needs execution or symbolic evaluation, which this technique family excludes; the structural cleartext sign/verify-form clause is decided under C16 (DESIGN §5 C06)",
-    'C14': "equality of three canonicalisers' outputs for all strings x chunkings is a value-level statement about loops with carry state; no refactor-stable structural clause exists (DESIGN §5 C14)",
 }
 
 CLAIMS = {
@@ -14,6 +12,7 @@ CLAIMS = {
     'C03': ("R-dom/R-who over MIR: a clean end-of-stream is reachable only through the MDC comparison / final AEAD tag; check-first releases nothing before Done", "§5 C03"),
     'C04': ("R-panic/R-rec over MIR: every panic-capable site on hostile paths is tactic-discharged or in the reviewed baseline; focus set must be discharged", "§5 C04"),
     'C05': ("R-len (symbolic write_len vs to_writer), R-table (inverse code tables), header-length derivation", "§5 C05"),
+    'C06': ("R-sib/R-seq (narrow): sign/verify twins feed the same frame sequence, one text-mode selection, streaming canonicaliser adds nothing at end of input; equality of canonicalisers on all inputs not decided", "§5 C06 / §11.8"),
     'C07': ("R-dom/origin: signing-capable subkeys get an embedded back-signature; builder validation dominates build", "§5 C07"),
     'C08': ("R-table (usage octet tables inverse) + R-dom (every unlock path passes its checksum/AEAD check; v6/Argon2 restrictions)", "§5 C08"),
     'C09': ("R-err (no I/O error dropped) + R-pair (buffered tails finished explicitly) + error-state table", "§5 C09"),
@@ -21,6 +20,7 @@ CLAIMS = {
     'C11': ("R-seq/R-table: framing constants, length widths and feed order equal the RFC 9580 §5.2.4 template; sign/verify twins agree", "§5 C11"),
     'C12': ("R-table/R-seq/R-who (narrow): KDF and AEAD input constants, field order and single derivation equal the RFC 9580 templates; byte streams themselves not decided", "§5 C12 / §11.7"),
     'C13': ("R-who (single fingerprint implementation + pure forwarders), R-table (RFC framing constants), origin of embedded ids", "§5 C13"),
+    'C14': ("R-who/R-dom/R-table (narrow): finaliser emits nothing, literal table, carry discipline, single batch routine, one selection rule; equality of the three canonicalisers on all inputs not decided", "§5 C14 / §11.8"),
     'C15': ("R-dom/R-sib/R-table over MIR: each acceptance rule is a guard on every path of every parallel implementation", "§5 C15"),
     'C16': ("R-sib/R-who/R-dom: signer and verifier hash the same derived form; only escaped text is representable; header validation on parse", "§5 C16"),
     'C17': ("R-table (interval partition of length encoders/decoders vs RFC), R-dom reader legality guards and writer chunk guards", "§5 C17"),
